@@ -71,6 +71,8 @@ def resolve_traces(scn, root):
 
 
 def evaluate(task, root):
+    if task.get('sweep'):
+        return evaluate_sweep(task, root)
     prof = get_profile(task['profile'])
     if 'scenario' in task:
         scn = task['scenario']
@@ -99,6 +101,41 @@ def evaluate(task, root):
     if task.get('want_sample'):
         out['sample'] = make_sample(rec)
     return out
+
+
+def evaluate_sweep(task, root):
+    """thorough tier: one *complete* sweep of a finite fault sub-space of one
+    sampled world (every crash point, every single wrong answer, every point x
+    exception kind ...).  The profile lists the variants as explicit scenarios;
+    each runs in its own fork like any other scenario."""
+    import shutil
+    prof = get_profile(task['profile'])
+    rng = engine.rng_for(task['seed'], task['profile'], task['index'], salt='sweep')
+
+    def count_events(scn):
+        croot = root[:-3] + 'c' + root[-2:]
+        shutil.rmtree(croot, ignore_errors=True)
+        os.makedirs(croot, exist_ok=True)
+        tag, val = engine.fork_call(_count_pass, (scn, croot))
+        shutil.rmtree(croot, ignore_errors=True)
+        return val if tag == 'ok' else []
+    variants = prof.sweep(rng, {'count_events': count_events})
+    results = []
+    for j, scn in enumerate(variants):
+        scn['seed'] = task['seed']
+        scn['index'] = 'sweep%d.%d' % (task['index'], j)
+        shutil.rmtree(root, ignore_errors=True)
+        os.makedirs(root, exist_ok=True)
+        tag, val = engine.fork_call(evaluate, ({'profile': task['profile'], 'scenario': scn}, root))
+        if tag != 'ok':
+            results.append({'tag': tag, 'val': val if isinstance(val, str) else None, 'scn': scn})
+        else:
+            val['tag'] = 'ok'
+            if val['violations']:
+                val['scn'] = scn
+            results.append(val)
+    return {'sweep': True, 'results': results, 'digest': hashlib.sha256(
+        '|'.join(r.get('digest', r['tag']) for r in results).encode()).hexdigest()}
 
 
 def make_sample(rec):
@@ -376,6 +413,18 @@ def run_check(pid, tier, seed, jobs, n_override=None, budget=None, out=print):
         tasks.append(t)
         if i < n_det:
             tasks.append({'profile': pid, 'seed': seed, 'index': i, 'tier': tier, 'dup': True})
+    n_sweeps = 0
+    if hasattr(prof, 'sweep'):
+        n_sweeps = getattr(prof, 'N_SWEEPS_THOROUGH', 200) if tier == 'thorough' else getattr(prof, 'N_SWEEPS_QUICK', 0)
+        if n_override:
+            n_sweeps = min(n_sweeps, max(1, n_override // 100)) if tier == 'thorough' else 0
+        sweep_tasks = []
+        for i in range(n_sweeps):
+            t = {'profile': pid, 'seed': seed, 'index': i, 'tier': tier, 'sweep': True, 'timeout': 600}
+            sweep_tasks.append(t)
+            if i < 3:
+                sweep_tasks.append(dict(t, dup=True))
+        tasks = sweep_tasks + tasks      # complete sweeps first: a wall budget then cuts the sampled part
     harness.install_wrappers()      # pre-warm: import xdoctest etc. before forking
     pool = engine.Pool(evaluate, jobs)
     digests = {}
@@ -384,61 +433,72 @@ def run_check(pid, tier, seed, jobs, n_override=None, budget=None, out=print):
     harness_errors = []
     violations = []      # (index, violation, scn)
     hangs = []
+    hang_scns = []       # (index, explicit scenario) of sweep variants that hung
     agg = {'fired': {}, 'outcomes': {}, 'probes': {}, 'classes': set()}
     nontrivial_digests = set()
     all_digests = set()
-    n_done = 0
-    n_faulting = 0
-    sim_time = 0.0
-    n_events = 0
-    n_execs = 0
+    cnt = {'done': 0, 'faulting': 0, 'sim_time': 0.0, 'events': 0, 'execs': 0, 'sweeps': 0, 'sweep_variants': 0}
     samples = []
     wall_cap = budget
+
+    def absorb(idx, val):
+        cnt['done'] += 1
+        st = val['stats']
+        for key in ('fired', 'outcomes', 'probes'):
+            for k_, v_ in st.get(key, {}).items():
+                agg[key][k_] = agg[key].get(k_, 0) + v_
+        for c in st.get('classes', []):
+            agg['classes'].add(c)
+        all_digests.add(val['digest'])
+        if st.get('nontrivial'):
+            nontrivial_digests.add(val['digest'])
+        if st.get('faulting'):
+            cnt['faulting'] += 1
+        cnt['sim_time'] += val.get('sim_time', 0)
+        cnt['events'] += val.get('n_events', 0)
+        cnt['execs'] += val.get('n_execs', 0)
+        if val.get('sample') and len(samples) < 5:
+            samples.append(val['sample'])
+        for v in val['violations']:
+            violations.append((idx, v, val.get('scn')))
+
     try:
         for res in pool.map_unordered(tasks, wall_cap=wall_cap):
             task = res['task']
             idx = task['index']
+            if task.get('sweep'):
+                idx = 'sweep%d' % idx
             if res['tag'] == 'timeout':
-                hangs.append(idx)
+                if not task.get('sweep'):
+                    hangs.append(idx)
+                else:
+                    harness_errors.append((idx, 'sweep exceeded its wall budget', None))
                 continue
             if res['tag'] != 'ok':
                 harness_errors.append((idx, res['tag'], res['val']))
                 continue
             val = res['val']
+            if task.get('dup') or task.get('sweep') or idx < n_det:
+                if idx in digests:
+                    det_pairs += 1
+                    if digests[idx] != val['digest']:
+                        det_bad.append(idx)
+                else:
+                    digests[idx] = val['digest']
             if task.get('dup'):
-                if idx in digests:
-                    det_pairs += 1
-                    if digests[idx] != val['digest']:
-                        det_bad.append(idx)
-                else:
-                    digests[idx] = val['digest']
                 continue
-            if idx < n_det:
-                if idx in digests:
-                    det_pairs += 1
-                    if digests[idx] != val['digest']:
-                        det_bad.append(idx)
-                else:
-                    digests[idx] = val['digest']
-            n_done += 1
-            st = val['stats']
-            for key in ('fired', 'outcomes', 'probes'):
-                for k_, v_ in st.get(key, {}).items():
-                    agg[key][k_] = agg[key].get(k_, 0) + v_
-            for c in st.get('classes', []):
-                agg['classes'].add(c)
-            all_digests.add(val['digest'])
-            if st.get('nontrivial'):
-                nontrivial_digests.add(val['digest'])
-            if st.get('faulting'):
-                n_faulting += 1
-            sim_time += val.get('sim_time', 0)
-            n_events += val.get('n_events', 0)
-            n_execs += val.get('n_execs', 0)
-            if val.get('sample') and len(samples) < 5:
-                samples.append(val['sample'])
-            for v in val['violations']:
-                violations.append((idx, v, val.get('scn')))
+            if task.get('sweep'):
+                cnt['sweeps'] += 1
+                for sub in val['results']:
+                    if sub['tag'] == 'timeout':
+                        hang_scns.append((idx, sub['scn']))
+                    elif sub['tag'] != 'ok':
+                        harness_errors.append((idx, sub['tag'], sub.get('val')))
+                    else:
+                        cnt['sweep_variants'] += 1
+                        absorb(idx, sub)
+                continue
+            absorb(idx, val)
     finally:
         pool.close()
     wall_batch = time.time() - t0
@@ -474,6 +534,12 @@ def run_check(pid, tier, seed, jobs, n_override=None, budget=None, out=print):
             scn['index'] = idx
             new.append((idx, {'rule': pid + '.HANG', 'detail': 'scenario did not finish within %ss (twice)' % engine.RUN_TIMEOUT,
                               'where': {}}, scn))
+    for idx, scn in hang_scns[:3]:
+        tag, val = run_explicit(pid, scn, timeout=engine.RUN_TIMEOUT)
+        if tag == 'timeout':
+            new.append((idx, {'rule': pid + '.HANG', 'detail': 'scenario did not finish within %ss (twice)' % engine.RUN_TIMEOUT,
+                              'where': {}}, scn))
+    n_done, n_faulting, sim_time, n_events, n_execs = cnt['done'], cnt['faulting'], cnt['sim_time'], cnt['events'], cnt['execs']
     replay_paths = []
     if exit_code == 0:
         for kid, idxs in sorted(known_hits.items()):
@@ -521,6 +587,9 @@ def run_check(pid, tier, seed, jobs, n_override=None, budget=None, out=print):
             'simulated_time_s': round(sim_time, 3),
             'events_logged': n_events,
             'doctest_executions': n_execs,
+            'complete_sweeps': cnt['sweeps'],
+            'sweep_variants_run': cnt['sweep_variants'],
+            'sweep_rule': getattr(prof, 'SWEEP_RULE', None),
             'faulting_scenarios': n_faulting,
             'fault_free_scenarios': n_done - n_faulting,
             'faults_fired': dict(sorted(agg['fired'].items())),
